@@ -22,6 +22,7 @@ func clientRun(args []string) error {
 	nrand := fs.Int("random", 0, "number of random sequences")
 	rlen := fs.Int("len", 40, "length of random sequences")
 	seed := fs.Int64("seed", 1, "seed")
+	nstorm := fs.Int("storm", 0, "number of large-batch sequences")
 	fs.Parse(args)
 	w, err := os.Create(*out)
 	if err != nil {
@@ -73,6 +74,12 @@ func clientRun(args []string) error {
 		}
 		n++
 	}
-	fmt.Printf("{\"walks\":%d,\"steps\":%d,\"events\":%d,\"hangs\":%d}\n", n, rn.Steps, sink.N, rn.Hangs)
+	for i := 0; i < *nstorm; i++ {
+		if err := run(clientdrv.Storm(rng, 4)); err != nil {
+			return err
+		}
+		n++
+	}
+	fmt.Printf("{\"walks\":%d,\"steps\":%d,\"events\":%d,\"hangs\":%d,\"gate_missing\":%d}\n", n, rn.Steps, sink.N, rn.Hangs, rn.GateMissing)
 	return nil
 }
